@@ -63,8 +63,11 @@ func main() {
 	for _, pkg := range os.Args[4:] {
 		// "yield:<pkg>": additionally, a scheduling point is inserted before EVERY statement of the package
 		// (textually, at the statement's start offset, so that nothing else of the file changes)
+		// "go:<pkg>": only the go statements of the package are rewritten (the goroutines it starts become threads of the
+		// explorer), no scheduling points are inserted
 		yield := strings.HasPrefix(pkg, "yield:")
-		pkg = strings.TrimPrefix(pkg, "yield:")
+		goOnly := strings.HasPrefix(pkg, "go:")
+		pkg = strings.TrimPrefix(strings.TrimPrefix(pkg, "yield:"), "go:")
 		dir := filepath.Join(repo, pkg)
 		ents, err := os.ReadDir(dir)
 		die(err)
@@ -86,7 +89,16 @@ func main() {
 					changed = true
 				}
 			}
-			if !changed && !yield {
+			hasGo := false
+			if goOnly {
+				ast.Inspect(f, func(n ast.Node) bool {
+					if _, ok := n.(*ast.GoStmt); ok {
+						hasGo = true
+					}
+					return true
+				})
+			}
+			if !changed && !yield && !hasGo {
 				continue
 			}
 			dst := filepath.Join(out, strings.ReplaceAll(pkg, "/", "_")+"_"+e.Name())
@@ -100,7 +112,9 @@ func main() {
 			}
 			src := buf.Bytes()
 			if yield {
-				src = insertYields(src)
+				src = insertYields(src, true)
+			} else if hasGo {
+				src = insertYields(src, false)
 			}
 			die(os.WriteFile(dst, src, 0644))
 			repl[path] = dst
@@ -113,7 +127,7 @@ func main() {
 }
 
 // insertYields puts "vyield.Y(); " in front of every statement of every block, case and select clause.
-func insertYields(src []byte) []byte {
+func insertYields(src []byte, stmts bool) []byte {
 	fset := token.NewFileSet()
 	f, err := parser.ParseFile(fset, "x.go", src, parser.ParseComments)
 	die(err)
@@ -123,6 +137,9 @@ func insertYields(src []byte) []byte {
 	}
 	var edits []edit
 	add := func(list []ast.Stmt) {
+		if !stmts {
+			return
+		}
 		for _, st := range list {
 			switch st.(type) {
 			case *ast.CaseClause, *ast.CommClause:
